@@ -2,6 +2,7 @@ import Lean.Data.Json
 import Glom.Model.C17Env
 import Glom.Spec.C17Streams
 import Glom.Model.C17Boltons
+import Glom.Spec.C17Args
 /-
   C17 driver: one JSON case in, one JSON verdict out.
 
@@ -38,7 +39,8 @@ import Glom.Model.C17Boltons
     {"kind":"invoke", "p":[call…], "e1":[call…], "e2":[call…], "target":V,
      "impl":{"repr_same":b, "before":R, "after":R, "reused":R, "fresh":R}}
     R = {"ok":[[V…],[[k,V]…]]} | {"raised":cls}
-  V = null | {"i":n} | {"l":[V…]} | {"t":[V…]} | {"b":bool} | {"f":n} (the float n.0) | {"s":str} |
+  V = {"k":"SKIP"|"STOP"} (glom's SKIP / STOP object as a value) | {"g":true} (a live iterator object) |
+      null | {"i":n} | {"l":[V…]} | {"t":[V…]} | {"b":bool} | {"f":n} (the float n.0) | {"s":str} |
       {"o":cls} (instance of a user class) | {"ref":id,"v":V} (THE object number id: same id = same Python object)
 -/
 namespace Glom.C17.Driver
@@ -60,6 +62,9 @@ partial def vOfJson (j : Json) : Except String V :=
     else if let .ok i := j.getObjValAs? Int "f" then .ok (.flt i)
     else if let .ok s := j.getObjValAs? String "s" then .ok (.str s)
     else if let .ok c := j.getObjValAs? Nat "o" then .ok (.obj c)
+    else if let .ok k := j.getObjValAs? String "k" then
+      (match k with | "SKIP" => .ok (.sent false) | "STOP" => .ok (.sent true) | _ => .error s!"bad V {j.compress}")
+    else if let .ok true := j.getObjValAs? Bool "g" then .ok .gen
     else if let .ok n := j.getObjValAs? Nat "ref" then do
       -- an identity is given to objects only: floats, strings, tuples, lists, instances
       match ← vOfJson (← j.getObjVal? "v") with
@@ -78,6 +83,8 @@ partial def vToJson : V → Json
   | .str s => Json.mkObj [("s", s)]
   | .obj c => Json.mkObj [("o", c)]
   | .ref n v => Json.mkObj [("ref", n), ("v", vToJson v)]
+  | .sent b => Json.mkObj [("k", if b then "STOP" else "SKIP")]
+  | .gen => Json.mkObj [("g", true)]
 
 def arr (j : Json) : Except String (List Json) :=
   match j with
@@ -137,6 +144,14 @@ def catalogue (name : String) : Option Fn :=
   | "none" => some (fun _ => .ok .none)
   | "zero" => some (fun _ => .ok (.int 0))
   | "one" => some (fun _ => .ok (.int 1))
+  -- functions that answer with the SKIP / STOP object: as `Iter(f)` they filter / end the stream, as a
+  -- `map` function, a key … they produce an ordinary value
+  | "skip2" => some (fun x => match x with | .int 2 => .ok (.sent false) | _ => .ok x)
+  | "stop3" => some (fun x => match x with | .int 3 => .ok (.sent true) | _ => .ok x)
+  | "nobool2" => some (fun x => match x with | .int 2 => .ok (.ref 94 (.obj 4)) | _ => .ok x)
+  | "pos" => some (fun x => match x.strip.num with
+      | some i => .ok (.bool (i > 0))
+      | none => .error "TypeError")
   | "tofloat" => some (fun x => match x with | .int i => .ok (.flt i) | _ => .ok x)
   | "tobool" => some (fun x => match x with | .int i => .ok (.bool (i != 0)) | _ => .ok x)
   | _ => none
@@ -152,7 +167,7 @@ def baseCatalogue (name : String) : Option BaseFn :=
   | "skip_stop" => some (fun x => match x with
       | .int i => if i ≥ 5 then .ok .stop else if i % 3 == 1 then .ok .skip else .ok (.val x)
       | _ => .ok (.val x))
-  | n => (catalogue n).map (fun f x => (f x).map Yield.val)
+  | n => (catalogue n).map BaseFn.ofFn
 
 def fnOf (name : String) : Except String Fn :=
   match catalogue name with
@@ -169,12 +184,24 @@ def entryOfJson (j : Json) : Except String Entry := do
   -- no "f": the method was called without its key (the default, `T`)
   let f : Except String Fn := (match j.getObjVal? "f" with
     | .ok (.str n) => fnOf n
-    | _ => fnOf "T")
+    | .ok .null => fnOf "T"
+    | .ok x => .error s!"bad callable {x.compress}"
+    | .error _ => fnOf "T")
   match op with
   | "map" => return ⟨op, .map (← f)⟩
-  | "filter" => return ⟨op, .filter (← f)⟩
-  | "takewhile" => return ⟨op, .takewhile (← f)⟩
-  | "dropwhile" => return ⟨op, .dropwhile (← f)⟩
+  | "filter" =>
+    (match j.getObjVal? "check" with
+     | .ok cj => do
+       let v ← fnOf (← cj.getObjValAs? String "validate")
+       let onFail ← (match cj.getObjVal? "default" with
+         | .ok (.str "SKIP") => pure CheckFail.skip
+         | .ok (.str "keep") => pure CheckFail.keep
+         | .ok .null => pure CheckFail.raises
+         | _ => throw "bad Check default")
+       return ⟨op, .filter (Fn.ofCheck v onFail)⟩
+     | .error _ => return ⟨op, .filter (Fn.asFilterKey (← f))⟩)
+  | "takewhile" => return ⟨op, .takewhile (Fn.asPredicate (← f))⟩
+  | "dropwhile" => return ⟨op, .dropwhile (Fn.asPredicate (← f))⟩
   | "unique" => return ⟨op, .unique (← f)⟩
   | "flatten" => return ⟨op, .flatten⟩
   | "limit" => return ⟨op, .slice 0 (← optNat (← j.getObjVal? "n")) 1⟩
@@ -199,7 +226,7 @@ def entryOfJson (j : Json) : Except String Entry := do
         if let .ok v := sj.getObjVal? "scalar" then do
           return (match ← vOfJson v with | .none => Sep.none | w => Sep.scalar w)
         else if let .ok v := sj.getObjVal? "set" then do return Sep.set (← (← arr v).mapM vOfJson)
-        else if let .ok n := sj.getObjValAs? String "fn" then do return Sep.fn (← fnOf n)
+        else if let .ok n := sj.getObjValAs? String "fn" then do return Sep.fn (Fn.asPredicate (← fnOf n))
         else pure Sep.none
       | .error _ => pure Sep.none)
     let m ← (match j.getObjVal? "maxsplit" with
@@ -232,10 +259,11 @@ def finToJson : Fin → Json
 def itemOfJson (j : Json) : Except String V := vOfJson j
 
 def takeOfJson (j : Json) : Except String TakeObs := do
-  let items ← (match j.getObjVal? "items" with
-    | .ok (.arr a) => a.toList.mapM itemOfJson
-    | _ => pure [])
+  let items ← (← arr (← j.getObjVal? "items")).mapM itemOfJson
   return ⟨items, ← finOfJson (← j.getObjVal? "fin"), ← j.getObjValAs? Nat "pulls"⟩
+
+/-- `all()`: what was returned IS a list (`Pipe(self, list)`), not something that merely holds the same items -/
+def isListOfJson (j : Json) : Except String Bool := j.getObjValAs? Bool "is_list"
 
 def takeToJson (o : TakeObs) : Json :=
   Json.mkObj [("items", Json.arr (o.items.map vToJson).toArray), ("fin", finToJson o.fin), ("pulls", o.pulls)]
@@ -271,8 +299,7 @@ def firstOfJson (j : Json) : Except String FirstObs :=
 /-- fuel for the model runs: far above anything a generated case needs -/
 def FUEL : Nat := 4000
 
-def chain (fwd : Bool) (h : BHeap) (i : Nat) (es : List Entry) : BHeap × Nat :=
-  es.foldl (fun (acc : BHeap × Nat) e => acc.1.addOp fwd acc.2 e) (h, i)
+def chain (fwd : Bool) (h : BHeap) (i : Nat) (es : List Entry) : BHeap × Nat := h.chain fwd i es
 
 def finName : Fin → String
   | .gotK => "gotK"
@@ -283,9 +310,39 @@ def finName : Fin → String
 /-- `{"first": name}`; `{"first": null}`: `first()` / `first(default=D)` — the default key `T` -/
 def firstKey (modeJ : Json) : Except String Fn :=
   match modeJ.getObjVal? "first" with
-  | .ok (.str n) => fnOf n
-  | .ok .null => fnOf "T"
+  | .ok (.str n) => (fnOf n).map Fn.asPredicate
+  | .ok .null => (fnOf "T").map Fn.asPredicate
   | _ => .error s!"bad mode {modeJ.compress}"
+
+/-- the implementation against the composition of the LIST functions (`composeE`, which shares nothing
+    with the transducers), whenever that evaluates: a finite source that ends normally and no stage raises -/
+def refTake (kinds : List Kind) (src : Src) (k : Nat) (o : TakeObs) : Bool :=
+  match src with
+  | .fin xs none =>
+    (match composeE kinds xs with
+     | .ok ys => o.items == ys.take k && o.fin == (if ys.length ≥ k then .gotK else .exhausted)
+     | .error _ => true)
+  | _ => true
+
+def refAll (kinds : List Kind) (src : Src) (o : TakeObs) : Bool :=
+  match src with
+  | .fin xs none =>
+    (match composeE kinds xs with
+     | .ok ys => o.items == ys && o.fin == .exhausted
+     | .error _ => true)
+  | _ => true
+
+def refFirst (kinds : List Kind) (src : Src) (key : Fn) (o : FirstObs) : Bool :=
+  match src with
+  | .fin xs none =>
+    (match composeE kinds xs with
+     | .ok ys =>
+       (match firstRef key ys .eof 0 with
+        | .found v _ => o == .found v
+        | .keyRaised _ _ => (match o with | .raised _ => true | _ => false)
+        | .atEnd _ => o == .default)
+     | .error _ => true)
+  | _ => true
 
 def runIter (j : Json) : Except String Json := do
   let fwd := genFacts.addOpForwardsSentinel
@@ -323,6 +380,8 @@ def runIter (j : Json) : Except String Json := do
   let iReused ← takeOfJson (← impl.getObjVal? "reused")
   let iFresh ← takeOfJson (← impl.getObjVal? "fresh")
   let reprSame ← impl.getObjValAs? Bool "repr_same"
+  -- `_add_op` builds `type(self)(…)`: the prefix spec and both derived specs are of the class of the base spec
+  let clsKept ← impl.getObjValAs? Bool "cls_kept"
   let mainJ ← impl.getObjVal? "main"
   let r := probeCount j
   let aBefore ← afterOfJson (← impl.getObjVal? "before")
@@ -333,30 +392,40 @@ def runIter (j : Json) : Except String Json := do
     checkSource src iReused.pulls r aReused && checkSource src iFresh.pulls r aFresh
   let srcAgree := src.after mBefore.pulls r == aBefore && src.after mAfter.pulls r == aAfter &&
     src.after mReused.pulls r == aReused && src.after mReused.pulls r == aFresh
-  let reuseHolds := checkReuse reprSame iBefore iAfter iReused iFresh &&
-    checkTake prefixKinds src k iBefore && checkTake userKinds src k iReused
-  let reuseAgree := mBefore == iBefore && mAfter == iAfter && mReused == iReused && mReused == iFresh
+  let reuseHolds := clsKept && checkReuse reprSame iBefore iAfter iReused iFresh &&
+    checkTake prefixKinds src k iBefore && checkTake userKinds src k iReused &&
+    refTake prefixKinds src k iBefore && refTake userKinds src k iReused
+  let reuseAgree := clsKept == genFacts.addOpTypeSelf && mBefore == iBefore && mAfter == iAfter && mReused == iReused && mReused == iFresh
   let (mainAgree, mainHolds, mainModel, br) ← (match modeJ with
     | .str "take" => pure (true, true, Json.null, s!"take-{finName mReused.fin}")
     | .str "all" => do
       let m := obsOfRun (runAll d2.kinds src FUEL)
       let i ← takeOfJson mainJ
+      let isList ← isListOfJson mainJ
       let a ← afterOfJson mainJ
       let agree := m.fin == i.fin && m.pulls == i.pulls && (m.fin != .exhausted || m.items == i.items) &&
         src.after m.pulls r == a
-      pure (agree, checkAll userKinds src i && checkSource src i.pulls r a, takeToJson m, s!"all-{finName m.fin}")
+      pure (agree && isList, checkAll userKinds src i && refAll userKinds src i && checkSource src i.pulls r a && isList,
+        takeToJson m,
+        s!"all-{finName m.fin}")
     | _ => do
       let key ← firstKey modeJ
+      let dflt : FirstDefault ← (match modeJ.getObjVal? "default" with
+        | .ok (.str "T") => pure FirstDefault.tExpr
+        | .ok (.str "Val") => pure (FirstDefault.valInt 424243)
+        | .ok x => throw s!"bad default {x.compress}"
+        | .error _ => pure FirstDefault.plain)
       let m := runFirst d2.kinds src FUEL key
       let i ← firstOfJson (← mainJ.getObjVal? "first")
       let ip ← mainJ.getObjValAs? Nat "pulls"
-      let mo := firstObsOf m.1
+      let mo := (match firstObsOf m.1 with | .default => dflt.miss | o => o)
       let sameKind := match mo, i with
         | .raised _, .raised _ => true      -- class of a key error: see `checkFirst`
         | a, b => a == b
       let a ← afterOfJson mainJ
       pure ((mo == i || sameKind) && m.2 == ip && src.after m.2 r == a,
-        checkFirst userKinds src key i ip && checkSource src ip r a,
+        checkFirstD dflt userKinds src key i ip &&
+          refFirst userKinds src key (if dflt != .plain && i == dflt.miss then .default else i) && checkSource src ip r a,
         Json.mkObj [("first", firstToJson mo), ("pulls", m.2)],
         s!"first-{match mo with | .found _ => "found" | .default => "default" | .raised e => "raised-" ++ e | .oof => "oof"}"))
   let oof := mBefore.fin == .oof || mReused.fin == .oof
@@ -426,6 +495,9 @@ def runReuse (j : Json) : Except String Json := do
   let obsJ ← arr (← impl.getObjVal? "steps")
   if obsJ.length > steps.length then throw "more observations than steps"
   let iObs ← (steps.take obsJ.length |>.zip obsJ).mapM (fun (s, o) => stepObsOfJson s.mode o)
+  let listsOk ← (steps.take obsJ.length |>.zip obsJ).mapM (fun (s, o) => match s.mode with
+    | .all => isListOfJson o
+    | _ => pure true)
   let iAfter ← afterOfJson impl
   let none0 : List (Option (List StageSt)) := pipes.map (fun _ => none)
   let mObs := (modelSteps FUEL src pipes steps 0 none0).map StepOut.obs
@@ -437,7 +509,8 @@ def runReuse (j : Json) : Except String Json := do
     ((steps.zip (mObs.zip iObs)).all fun (s, a, b) => stepAgree s.mode a b) && src.after mPos r == iAfter
   -- the observations stop early only at an exception
   let complete := iObs.length == steps.length || (match iObs.getLast? with | some o => o.raised | none => false)
-  let stepsHold := complete && checkSteps xs tail pipes (steps.take iObs.length) iObs 0 (pipes.map fun _ => {})
+  let stepsHold := complete && listsOk.all id &&
+    checkSteps xs tail pipes (steps.take iObs.length) iObs 0 (pipes.map fun _ => {})
   let srcHolds := checkSource src iPos r iAfter
   let why := (if stepsHold then "" else "a step does not yield the composition over the remaining source items") ++
     (if srcHolds then "" else " source after the run: items lost / pushed back, or close() called")
@@ -533,18 +606,103 @@ def runStreams (j : Json) : Except String Json := do
   let obsJ ← arr (← impl.getObjVal? "events")
   if obsJ.length != evs.length then throw "number of observations differs from the number of events"
   let iObs ← (evs.zip obsJ).mapM fun (e, o) => evObsOfJson e o
+  let listsOk ← (evs.zip obsJ).mapM fun (e, o) => match e with
+    | .all _ _ _ => isListOfJson o
+    | _ => pure true
   let mOut := (World.empty.run srcs FUEL evs).2.map (·.2)
   if mOut.any EvOut.isOof then
     return Json.mkObj [("skip", true), ("why", "model ran out of fuel")]
   let mObs := mOut.map EvOut.obs
   let agree := (evs.zip (mObs.zip iObs)).all fun (e, a, b) => evAgree e a b
-  let holds := checkStreams srcsFin evs iObs (fun _ => none)
+  let holds := checkStreams srcsFin evs iObs (fun _ => none) && listsOk.all id
   let nlive := (evs.filter fun e => match e with | .open _ _ _ => true | _ => false).length
   return Json.mkObj [
     ("agree", agree), ("holds", holds),
     ("model", Json.mkObj [("events", Json.arr (mObs.map evObsToJson).toArray)]),
     ("branch", s!"streams-{nlive}-{specs.size}"),
     ("why", if holds then "" else "a stream does not yield what it yields when it is run alone (the composition of its stages over its own source)")]
+
+/-! ### builder methods at the edges of their arguments -/
+
+def argOfJson (j : Json) : Except String Arg :=
+  match j with
+  | .null => .ok .none
+  | .bool b => .ok (.bool b)
+  | .num _ => do return .int (← j.getInt?)
+  | .obj _ =>
+    if let .ok s := j.getObjValAs? String "str" then .ok (.str s)
+    else do return .flt (← j.getObjValAs? Int "trunc") (← j.getObjValAs? Bool "integral")
+  | _ => .error s!"bad argument {j.compress}"
+
+/-- the builder call of an `args` case, by the model: a build-time exception or the stage -/
+def methodOfJson (j : Json) : Except String (Except Err Kind) := do
+  let m ← j.getObjValAs? String "m"
+  let args ← (match j.getObjVal? "args" with
+    | .ok a => do (← arr a).mapM argOfJson
+    | .error _ => pure [])
+  match m, args with
+  | "slice", _ => return sliceMethod args
+  | "limit", [a] => return .ok (limitMethod a)
+  | "chunked", [a] =>
+    let fill ← (match j.getObjVal? "fill" with
+      | .ok fj => do return some (← vOfJson (← fj.getObjVal? "v"))
+      | .error _ => pure none)
+    return .ok (chunkedMethod a fill)
+  | "windowed", [a] => return .ok (windowedMethod a)
+  | "split", _ =>
+    let sep ← (match j.getObjVal? "sep" with
+      | .ok sj =>
+        if let .ok v := sj.getObjVal? "scalar" then do
+          return (match ← vOfJson v with | .none => Sep.none | w => Sep.scalar w)
+        else if let .ok v := sj.getObjVal? "set" then do return Sep.set (← (← arr v).mapM vOfJson)
+        else throw "bad separator"
+      | .error _ => pure Sep.none)
+    return .ok (splitMethod sep (← argOfJson (← j.getObjVal? "maxsplit")))
+  | _, _ => throw s!"bad method call {j.compress}"
+
+def runArgs (j : Json) : Except String Json := do
+  let pre ← (← arr (← j.getObjVal? "pre")).mapM entryOfJson
+  let post ← (← arr (← j.getObjVal? "post")).mapM entryOfJson
+  let built ← methodOfJson (← j.getObjVal? "op")
+  let src ← srcOfJson (← j.getObjVal? "src")
+  let k ← j.getObjValAs? Nat "k"
+  let modeJ ← j.getObjVal? "mode"
+  let impl ← j.getObjVal? "impl"
+  let buildJ ← impl.getObjVal? "build"
+  let iBuild : Option Err ← (match buildJ with
+    | .str "ok" => pure none
+    | o => do return some (← o.getObjValAs? String "raised"))
+  match built with
+  | .error e =>
+    -- the builder call itself raises: nothing else to observe
+    let ok := iBuild == some e
+    return Json.mkObj [("agree", ok), ("holds", ok), ("model", Json.mkObj [("build", Json.mkObj [("raised", e)])]),
+      ("branch", s!"args-build-{e}"),
+      ("why", if ok then "" else "the builder method does not reject these arguments the way the model says")]
+  | .ok kind =>
+    let kinds : List Kind := .base (BaseFn.ofFn (fun x => .ok x)) none :: (pre.map (·.kind) ++ [kind] ++ post.map (·.kind))
+    if !(kinds.all Kind.wf) then throw "args case: a stage of pre/post is outside the domain"
+    if iBuild.isSome then
+      return Json.mkObj [("agree", false), ("holds", false), ("model", Json.mkObj [("build", "ok")]),
+        ("branch", "args-build-ok"), ("why", "the builder method raised; the model accepts these arguments")]
+    let runJ ← impl.getObjVal? "run"
+    let i ← takeOfJson runJ
+    let a ← afterOfJson runJ
+    match modeJ with
+    | .str "all" =>
+      let isList ← isListOfJson runJ
+      let m := obsOfRun (runAllG kinds src FUEL)
+      if m.fin == .oof then return Json.mkObj [("skip", true), ("why", "model ran out of fuel")]
+      let agree := m.fin == i.fin && m.pulls == i.pulls && (m.fin != .exhausted || m.items == i.items) && isList
+      return Json.mkObj [("agree", agree), ("holds", checkAllG kinds src i && refAll kinds src i && isList &&
+          checkSource src i.pulls 1 a),
+        ("model", takeToJson m), ("branch", s!"args-all-{finName m.fin}"), ("why", "")]
+    | _ =>
+      let m := obsOfRun (runTakeG kinds src FUEL k)
+      if m.fin == .oof then return Json.mkObj [("skip", true), ("why", "model ran out of fuel")]
+      return Json.mkObj [("agree", m == i), ("holds", checkTakeG kinds src k i && refTake kinds src k i &&
+          checkSource src i.pulls 1 a),
+        ("model", takeToJson m), ("branch", s!"args-take-{finName m.fin}"), ("why", "")]
 
 /-! ### boltons' helpers, as written -/
 
@@ -587,11 +745,21 @@ def runBoltons (j : Json) : Except String Json := do
   let iEvents ← obsJ.mapM fun o => evObsOfJson (.next 0) o
   let agree := mInit == iInit && mInitPulls == iInitPulls && mEvents.length == iEvents.length &&
     (mEvents.zip iEvents).all fun (a, b) => evAgree (.next 0) a b
+  let iItems := iEvents.filterMap fun o => match o with | .item v _ => some v | _ => none
+  let refOk : Bool := match src with
+    | .fin xs none => (match refE e.kind xs with
+      | .ok ys => iInit.isNone && iItems == ys.take k &&
+          (iEvents.length ≤ k) && (ys.length ≥ k || (match iEvents.getLast? with | some (.eof _) => true | _ => false))
+      | .error _ => true)
+    | _ => true
   return Json.mkObj [
-    ("agree", agree), ("holds", true),
+    -- the helper of the installed boltons must BE the list function of the stage (that is what the pipeline
+    -- property composes); and it must be the code-shaped model the `c17_boltons_*` theorems are about
+    ("agree", agree), ("holds", agree && refOk),
     ("model", Json.mkObj [("init", match mInit with | none => Json.str "ok" | some c => Json.mkObj [("raised", c)]),
       ("init_pulls", mInitPulls), ("events", Json.arr (mEvents.map evObsToJson).toArray)]),
-    ("branch", s!"boltons-{e.name}"), ("why", "")]
+    ("branch", s!"boltons-{e.name}"),
+    ("why", if agree && refOk then "" else "the installed boltons helper is not the list function / the generator the stage theorems are about")]
 
 /-! ### Invoke -/
 
@@ -686,6 +854,7 @@ def run (j : Json) : Except String Json := do
   | .ok "reuse" => runReuse j
   | .ok "streams" => runStreams j
   | .ok "boltons" => runBoltons j
+  | .ok "args" => runArgs j
   | _ => runIter j
 
 end Glom.C17.Driver
